@@ -46,6 +46,11 @@ func (c *Ctx) handoverRule(rule string, producer *ssa.Function) {
 			parses = append(parses, call)
 		}
 	})
+	for _, lr := range c.lineReads(producer) {
+		if lr.Site != lr.Inner {
+			reads = append(reads, lr.Site)
+		}
+	}
 	r.Floor(rule, "parser calls in the receive goroutine (hand-over)", len(parses), 1)
 	onlyFrom := func(v ssa.Value, pc *ssa.Call) bool {
 		os := c.Origins(v)
@@ -242,4 +247,119 @@ func (c *Ctx) handoverInHelper(rule string, pf *producerFrameT) {
 		r.Add(rule, fmt.Sprintf("handover:%s#%d", c.FuncKey(h), n), c.InstrPos(pc), c.FuncKey(h), "an accepted line is handed over (blocking) before the next read", okH, why)
 	})
 	r.Floor(rule, "parser calls in the receive goroutine (hand-over)", n, 1)
+}
+
+// lineRead is one place where the receive goroutine obtains a line: a
+// delimiter-framed bufio read in its own body, or a call of a read helper.
+type lineRead struct {
+	Site    *ssa.Call // the call in the goroutine's own frame (bufio call or helper call); results: (text, error)
+	Inner   *ssa.Call // the bufio read itself
+	Trimmed bool      // the helper already removed the CR/LF terminator
+}
+
+// readHelperInfo: h is an unexported (string, error) function of package client
+// that performs exactly one ReadString / ReadBytes on the connection's reader
+// and returns its error unchanged, nil only on the no-error edge, and on that
+// edge the text read - as it is, or with strings.Trim(text, "\r\n") applied.
+func (c *Ctx) readHelperInfo(h *ssa.Function) (*ssa.Call, bool, bool) {
+	a := c.A
+	if h == nil || !c.InModuleFn(h) || h.Package() != c.Client || h.Blocks == nil || (h.Object() != nil && h.Object().Exported()) {
+		return nil, false, false
+	}
+	res := h.Signature.Results()
+	if res.Len() != 2 || !isStringType(res.At(0).Type()) || typeString(res.At(1).Type()) != "error" {
+		return nil, false, false
+	}
+	var rd *ssa.Call
+	n := 0
+	funcInstrs(h, func(in ssa.Instruction) {
+		if call, ok := in.(*ssa.Call); ok {
+			switch calleeName(&call.Call) {
+			case "(*bufio.Reader).ReadString", "(*bufio.Reader).ReadBytes":
+				n++
+				rd = call
+			}
+		}
+	})
+	if n != 1 || !c.derivesFromField(rd.Call.Args[0], a.IO) {
+		return nil, false, false
+	}
+	isExt := func(v ssa.Value, idx int) bool {
+		ex, ok := v.(*ssa.Extract)
+		return ok && ex.Tuple == ssa.Value(rd) && ex.Index == idx
+	}
+	okAll, nTrim, nRaw := true, 0, 0
+	funcInstrs(h, func(in ssa.Instruction) {
+		rt, ok := in.(*ssa.Return)
+		if !ok {
+			return
+		}
+		if len(rt.Results) != 2 {
+			okAll = false
+			return
+		}
+		r0, r1 := retVal(rt, 0), retVal(rt, 1)
+		if isExt(r1, 1) {
+			return // the read's own error (nil or not), whatever text goes with it
+		}
+		if !isNilConst(r1) {
+			okAll = false
+			return
+		}
+		// a nil error: only where the read reported none
+		onNoErr := false
+		for _, cd := range CondsAt(rt.Block()) {
+			cd = unwrapNot(cd)
+			if bo, isB := cd.V.(*ssa.BinOp); isB && (bo.Op == token.NEQ || bo.Op == token.EQL) {
+				if (isExt(bo.X, 1) && isNilConst(bo.Y)) || (isExt(bo.Y, 1) && isNilConst(bo.X)) {
+					if (bo.Op == token.EQL) == cd.True {
+						onNoErr = true
+					}
+				}
+			}
+		}
+		if !onNoErr {
+			okAll = false
+			return
+		}
+		switch {
+		case isExt(r0, 0):
+			nRaw++
+		default:
+			tr, isC := r0.(*ssa.Call)
+			if isC && calleeName(&tr.Call) == "strings.Trim" && isExt(tr.Call.Args[0], 0) {
+				if cut, okC := constString(tr.Call.Args[1]); okC && (cut == "\r\n" || cut == "\n\r") {
+					nTrim++
+					return
+				}
+			}
+			okAll = false
+		}
+	})
+	if !okAll || (nTrim > 0) == (nRaw > 0) {
+		return nil, false, false
+	}
+	return rd, nTrim > 0, true
+}
+
+// lineReads lists the line reads of fn's own frame.
+func (c *Ctx) lineReads(fn *ssa.Function) []lineRead {
+	var out []lineRead
+	funcInstrs(fn, func(in ssa.Instruction) {
+		call, ok := in.(*ssa.Call)
+		if !ok {
+			return
+		}
+		switch calleeName(&call.Call) {
+		case "(*bufio.Reader).ReadString", "(*bufio.Reader).ReadBytes":
+			out = append(out, lineRead{Site: call, Inner: call})
+			return
+		}
+		if h := call.Call.StaticCallee(); h != nil && !call.Call.IsInvoke() {
+			if rd, trimmed, ok := c.readHelperInfo(h); ok {
+				out = append(out, lineRead{Site: call, Inner: rd, Trimmed: trimmed})
+			}
+		}
+	})
+	return out
 }
